@@ -32,13 +32,46 @@ def const_str_args(e):
     return out
 
 
+# crate functions that read the option whose name they are given: path -> index of the name argument
+OPTION_READERS = {}
+
+
+def find_option_readers(prog):
+    """`fn f(args, name, ..)` that hands `name` to ArgMatches::value_of (directly or through another such function)"""
+    readers = {}
+    cli = [q for q in prog.bodies if prog.bodies[q].get("crate") == "svgbob_cli" and "{closure" not in q]
+    changed = True
+    while changed:
+        changed = False
+        for q in cli:
+            if q in readers:
+                continue
+            ex = None
+            for _, t in prog.calls(q):
+                n = Program.callee_name(t)
+                idx = 1 if re.search(r"ArgMatches::<'a>::value_of$", n) else readers.get(n)
+                if idx is None or idx >= len(t["args"]):
+                    continue
+                ex = ex or Expr(prog, q)
+                a = strip(ex.operand(t["args"][idx]))
+                if a[0] == "param" and not a[2] and 1 <= a[1] <= prog.bodies[q]["argc"]:
+                    readers[q] = a[1] - 1
+                    changed = True
+                    break
+    return readers
+
+
 def value_of_names(e):
-    """names passed to value_of / parse_value_of inside e"""
+    """names passed to value_of / parse_value_of (or another option-reading helper of the crate) inside e"""
     out = []
 
     def pred(z):
         if z[0] == "call" and re.search(r"ArgMatches::<'a>::value_of$|svgbob_cli::parse_value_of$", z[1]):
             a = strip(z[2][1])
+            if a[0] == "const":
+                out.append(a[2])
+        elif z[0] == "call" and z[1] in OPTION_READERS and OPTION_READERS[z[1]] < len(z[2]):
+            a = strip(z[2][OPTION_READERS[z[1]]])
             if a[0] == "const":
                 out.append(a[2])
         return False
@@ -58,6 +91,8 @@ def run(run):
     if inl:
         run.note("main analysed with its single-use helpers inlined: %s" % ", ".join(short(x) for x in inl))
     run.record("inlined_helpers", [short(x) for x in inl])
+    OPTION_READERS.clear()
+    OPTION_READERS.update(find_option_readers(prog))
     b = prog.bodies[MAIN]
     ex = Expr(prog, MAIN, opaque=r"get_matches$")
     sl = prog.slicer(MAIN)
